@@ -32,6 +32,21 @@ sed -i "s#/repo/#$wt/#g" $hz/*/Cargo.toml
 export CARGO_NET_OFFLINE=true CARGO_TARGET_DIR=$base/target
 ( cd $hz && cargo build --profile verif -p $crate 2>&1 | grep -E "^error" -A8 | head -30 )
 rc=0
+if [ -n "${MUT_CHECK:-}" ]; then
+  # run the real driver (sanitizer legs, stall and crash classification) against the scratch copy
+  for p in $props; do
+    echo "--- check $p (tier ${MUT_TIER:-quick}) on mutant $name"
+    LRV_HARNESS=$hz LRV_OUT=$base/out-$name CARGO_TARGET_DIR=$base/target /verif/check $p --tier ${MUT_TIER:-quick} | grep -v "^ \{3,\}" | tail -${MUT_SHOW:-6}
+    echo "    exit=${PIPESTATUS[0]}"
+    rp=$(ls $base/out-$name/replays/$p/*.json 2>/dev/null | grep -v "/crash-\|/stall-" | head -1)
+    if [ -n "$rp" ]; then
+      LRV_HARNESS=$hz LRV_OUT=$base/out-$name CARGO_TARGET_DIR=$base/target /verif/check $p --replay $rp | grep "^VIOLATION property\|^replay\|^INCONCLUSIVE" | tail -2
+      echo "    replay exit=${PIPESTATUS[0]}"
+    fi
+  done
+  rm -rf $base/out-$name
+  props=""
+fi
 for p in $props; do
   out=$($base/target/verif/$crate $p --tier ${MUT_TIER:-quick} --seed ${VERIF_SEED:-1} 2>/dev/null | grep '^LRV-RESULT ' | tail -1)
   echo "$out" | python3 -c "
